@@ -1112,7 +1112,8 @@ DATE_PICS_FULL = ["YYYY-MM-DD", "DD/MM/YYYY", "YYYYMMDD", "Dy, DD Mon YYYY", "DA
 DATE_PICS_PART = ["", " ", "DD", "MM", "MM-DD", "YY-MM-DD", "Y-MM-DD", "YYY-MM-DD", "YYYY", "YYYY-MM", "MON", "DDD", "YY DDD",
                   "YYYY DD", "DD MON YY", "Dy DD", "YYY DDD", "Y", "MONTH YYYY", "DD MM"]
 TIME_PICS = ["HH24:MI:SS.FF6", "HH24:MI:SS.FF", "HH24MISS", "HH12:MI:SS AM", "HH:MI:SS.FF3 P.M.", "AM HH12.MI.SS.FF9", "HH24:MI",
-             "HH24", "MI:SS", "SS.FF2", "HH12 a.m.", "FF", "HH24:MI:SS.FF7", "hh24-mi-ss", "HH24:MI:SS.FF1", "HH12:MI pm"]
+             "HH24", "MI:SS", "SS.FF2", "HH12 a.m.", "FF", "HH24:MI:SS.FF7", "hh24-mi-ss", "HH24:MI:SS.FF1", "HH12:MI pm",
+             "HH24:MI:SS.FF4", "SS.FF5", "HH24:MI:SS.FF8"]
 TS_PICS = ["YYYY-MM-DD HH24:MI:SS.FF6", "YYYY-MM-DDTHH24:MI:SS.FF", "Day DDD YYYY HH24:MI:SS.FF6", "YYYY-DDD Dy HH:MI:SS.FF AM", "DD/MM/YYYY HH12:MI:SS.FF7 PM", "Dy Mon DD HH24:MI:SS YYYY",
            "YYYYMMDDHH24MISSFF6", "YYYY-DDD HH24.MI.SS,FF9", "HH24:MI:SS DD-MON-YYYY", "DD-MON-YY HH:MI A.M.", "YYYY-MM-DD",
            "MM-DD HH24", "YYYY-MM-DD HH12 AM", "YYYY-MM-DD HH24:MI:SS.FF3", "Day, DD Month YYYY HH12:MI:SS.FF am", "HH24:MI",
@@ -1135,7 +1136,7 @@ def spell_cases(v):
              dn(2023, 11, 30), dn(1999, 12, 31), dn(1970, 1, 1), dn(1969, 12, 31), dn(9, 9, 9), dn(2096, 12, 31), dn(305, 3, 30)]
     dates += [rnd.randint(-719162, 2932896) for _ in range(4 * scale_of(v))]
     times = [[0, 0], [47289, 123456], [86399, 999999], [43200, 0], [43199, 999999], [3600, 500000], [45000, 7], [1, 999995],
-             [86399, 999994], [0, 999999]] + [[rnd.randint(0, 86399), rnd.randint(0, 999999)] for _ in range(3 * scale_of(v))]
+             [86399, 999994], [0, 999999], [7261, 123400], [52000, 120000], [100, 100000], [43200, 10], [1800, 999900]] + [[rnd.randint(0, 86399), rnd.randint(0, 999999)] for _ in range(3 * scale_of(v))]
     yms = [0, 5, -5, 17, -17, 12, 2136000000, -2136000000, 2135999999, 119988, -13, 1200000] + [rnd.randint(-2136000000, 2136000000) for _ in range(3)]
     day = 86400 * 10**6
     dts = [0, 1, -1, 93784005006, -93784005006, day - 1, -(day - 1), 100000000 * day, -100000000 * day, 100000000 * day - 1,
@@ -1221,7 +1222,7 @@ def replay_spellings(v, tag, gens, want):
     return len(plan)
 
 
-N_STYLES, MAX_CUT = 14, 40
+N_STYLES, MAX_CUT = 25, 40      # = Len(SpellGen!Styles), SpellGen!MaxCut
 
 
 @prop("C05")
